@@ -73,6 +73,10 @@ class Invalid(Exception):
 ANY = ('any valid element',)      # seed expectation: must denote some element (e.g. a generator, a parameter)
 
 
+class CpuTimeout(BaseException):
+    """not an Exception: fingroups has `except Exception` fallbacks that must not swallow it"""
+
+
 class Deadline:
     """CPU-time budget (ITIMER_PROF, so machine load does not matter) for code under test that may not return."""
 
@@ -80,7 +84,7 @@ class Deadline:
         self.seconds = seconds
 
     def _fire(self, *_):
-        raise TimeoutError(f'no result within {self.seconds} s of CPU time')
+        raise CpuTimeout(f'no result within {self.seconds} s of CPU time')
 
     def __enter__(self):
         self.old = signal.signal(signal.SIGPROF, self._fire)
@@ -97,7 +101,7 @@ def guarded(cx, budget, fn, *args):
     try:
         with Deadline(budget):
             return fn(*args)
-    except TimeoutError as e:
+    except CpuTimeout as e:
         law, cls, desc = cx.cur
         cx.viol(law, (cls + ':' if cls else '') + 'hangs', f'{D(desc)}: {e} for this group (stuck in or after this call)')
         cx.flush()
@@ -542,8 +546,6 @@ class Ctx:
         self.cur = (law, cls, desc)
         try:
             return True, fn(*args)
-        except TimeoutError:
-            raise
         except Exception as e:   # a real operation must not raise on valid elements
             self.viol(law, (cls + ':' if cls else '') + 'raises', f'{D(desc)} raised {type(e).__name__}: {e}')
             return False, None
@@ -875,7 +877,7 @@ def guarded_laws(cx, states, tier):
         with Deadline(400):
             cx.cur = ('laws', '', 'law stage')
             laws(cx, states, tier)
-    except TimeoutError as e:
+    except CpuTimeout as e:
         law, cls, desc = cx.cur
         cx.viol(law, (cls + ':' if cls else '') + 'hangs', f'{D(desc)}: {e} in the law stage (stuck in or after this call)')
         cx.flush()
@@ -1221,7 +1223,7 @@ def job_hc_small(part, job, fg):
                 A = fg.HyperellipticCurve(p=p, genus=genus)
                 G = fg.HyperellipticCurve(p=p, genus=genus, coordinates=coords)
                 cached = fg.HyperellipticCurve(p=p, genus=genus, coordinates=coords) is G
-        except TimeoutError as e:
+        except CpuTimeout as e:
             part.violation('C27:HC:construct:timeout', f'{name}: HyperellipticCurve() {e}', dict(job=job, only=name))
             continue
         f = [int(c) for c in A.f.value]
@@ -1352,7 +1354,7 @@ def job_class_groups(part, job, fg):
                 try:
                     with Deadline(20):
                         got = tuple(int(c) for c in ad.G(f).value)
-                except Exception as e:
+                except (Exception, CpuTimeout) as e:
                     got = f'{type(e).__name__}: {e}'
                 if got != x:
                     a, b, c = f
